@@ -8,6 +8,7 @@
  *   x render <style> <decor> <forest> <hex>   the same, <hex> = text of <forest> by the reference writer
  *   x open                            open(file)
  *   x read [log]                      read(target[, logger of the driver])
+ *   x unlink                          remove the file (reset of a parser that has read from it fails then)
  *   x stat                            return code of the last read (compared with the model)
  *   x reset                           reset()
  *   x root <forest>                   replace the children of the target
@@ -229,6 +230,11 @@ int main(void)
 			write_file(d, dl);
 			free(d);
 			printf("R ok len=%zu\n", dl);
+		}
+		else if (!strcmp(op, "unlink") && drv_nw == 2) {
+			/* the file disappears behind the back of the parser object (an open stream keeps its content) */
+			unlink(fname);
+			printf("R ok\n");
 		}
 		else if (!strcmp(op, "open") && drv_nw == 2) {
 			if (!xp) { puts("bad-op"); continue; }
